@@ -92,8 +92,10 @@ def solve_eigen(Dm, A, G, lam):
 def kappa_inverse(A, G, lam):
     wa = torch.linalg.eigvalsh((A + A.t()) / 2)
     wg = torch.linalg.eigvalsh((G + G.t()) / 2)
-    ka = (wa.max() + lam) / max(float(wa.min() + lam), 1e-300)
-    kg = (wg.max() + lam) / max(float(wg.min() + lam), 1e-300)
+    # absolute values: loaded factors may be indefinite (the inverse method inverts whatever A + lambda I is)
+    ea, eg = (wa + lam).abs(), (wg + lam).abs()
+    ka = float(ea.max()) / max(float(ea.min()), 1e-300)
+    kg = float(eg.max()) / max(float(eg.min()), 1e-300)
     return float(ka * kg)
 
 
